@@ -138,6 +138,20 @@ func c12Prop(st *CaseStats, fam int) func(t *rapid.T) {
 				if err == nil {
 					t.Fatalf("%s:\n  Segment.WriteTo of IN%d reported success (n=%d) although one Write call of the writer failed at byte %d of %d", desc, i, n, k, len(good))
 				}
+				// the same, the failing call reporting the full byte count together with its error
+				if k%4 != 0 && k < len(good)-64 {
+					continue
+				}
+				w2 := &failOnce{k: k, full: true}
+				err = safely("Segment.WriteTo(writer failing with a full count)", func() error {
+					var e error
+					n, e = in.Seg.WriteTo(w2, nil)
+					return e
+				})
+				inner++
+				if err == nil {
+					t.Fatalf("%s:\n  Segment.WriteTo of IN%d reported success (n=%d) although the Write call crossing byte %d of %d returned an error (together with the full byte count)", desc, i, n, k, len(good))
+				}
 			}
 		}
 
@@ -178,6 +192,19 @@ func c12Prop(st *CaseStats, fam int) func(t *rapid.T) {
 			inner++
 			if err == nil {
 				t.Fatalf("%s:\n  Merger.WriteTo reported success (n=%d) although one Write call of the writer failed at byte %d of %d", desc, n, k, len(good))
+			}
+			if k%4 != 0 && k < len(good)-64 {
+				continue
+			}
+			w2 := &failOnce{k: k, full: true}
+			err = safely("Merger.WriteTo(writer failing with a full count)", func() error {
+				var e error
+				n, e = ice.Merge(segs, drops, bufSize).WriteTo(w2, nil)
+				return e
+			})
+			inner++
+			if err == nil {
+				t.Fatalf("%s:\n  Merger.WriteTo reported success (n=%d) although the Write call crossing byte %d of %d returned an error (together with the full byte count)", desc, n, k, len(good))
 			}
 		}
 		// --- the destination is the caller's own *bufio.Writer (smaller / larger than the merge buffer) ---
